@@ -13,6 +13,7 @@ The model never imports the analysed package.
 from __future__ import annotations
 
 import ast
+import copy as copy_
 import pathlib
 from dataclasses import dataclass, field
 from typing import Any, Dict, List, Optional, Tuple
@@ -141,6 +142,12 @@ class Model:
         for m in self.mods.values():
             self._collect(m.name, m.tree.body, m.name, None, None)
         self._mro_memo: Dict[str, List[str]] = {}
+        if self._desugar_singledispatch():
+            # the trees changed: collect again, so that every analysis sees the one merged function
+            self.defs = {m.name: self._scan_defs(m) for m in self.mods.values()}
+            self.classes, self.funcs, self._mro_memo = {}, {}, {}
+            for m in self.mods.values():
+                self._collect(m.name, m.tree.body, m.name, None, None)
         self._item_memo: Dict[str, Dict[str, Tuple[str, Any]]] = {}
         self._by_name: Dict[str, List[str]] = {}
         for q, f in self.funcs.items():
@@ -148,6 +155,147 @@ class Model:
         self.shared_default_slots: Dict[str, List[Tuple[str, str, int]]] = {}
         self._synthesise_accessors()
         self._check_reflection_inventory()
+
+    def _desugar_singledispatch(self) -> bool:
+        """a module-level `@singledispatch def f(x, ...)` with its registrations `@f.register(T) def _(x, ...)` (also the annotation
+        form and `f.register(T)(g)`) is ONE function that switches on the class of its first argument: the tree is rewritten to
+        `def f(x, ...): if isinstance(x, T1): <impl 1> elif ... else: <fallback>`, subclasses tested before their bases.  Left alone
+        (and then reported like any construct the model does not know) when an implementation's positional parameters do not line
+        up with the fallback's, or when two registered types may be related in a way the model cannot order."""
+        changed = False
+        for m in self.mods.values():
+            d = self.defs.get(m.name, {})
+
+            def is_sd(dec):
+                if isinstance(dec, ast.Name):
+                    v = d.get(dec.id)
+                    return v is not None and v[0] == "import" and v[1] == ("functools", "singledispatch")
+                return isinstance(dec, ast.Attribute) and dec.attr == "singledispatch" and isinstance(dec.value, ast.Name) and \
+                    d.get(dec.value.id, (None, None))[0] == "importmod" and d[dec.value.id][1] == "functools"
+            gens = [n for n in m.tree.body if isinstance(n, ast.FunctionDef) and any(is_sd(x) for x in n.decorator_list)]
+            for f in gens:
+                impls = []      # (type expr, FunctionDef, statement to drop or None)
+                ok = True
+                by_name = {n.name: n for n in m.tree.body if isinstance(n, ast.FunctionDef)}
+
+                def reg_of(dec):
+                    """f.register(T) -> T ; f.register -> 'annotation' ; else None"""
+                    if isinstance(dec, ast.Call) and isinstance(dec.func, ast.Attribute) and dec.func.attr == "register" and \
+                            isinstance(dec.func.value, ast.Name) and dec.func.value.id == f.name and len(dec.args) == 1 and not dec.keywords:
+                        return dec.args[0]
+                    if isinstance(dec, ast.Attribute) and dec.attr == "register" and isinstance(dec.value, ast.Name) and dec.value.id == f.name:
+                        return "annotation"
+                    return None
+                for n in m.tree.body:
+                    if isinstance(n, ast.FunctionDef) and n is not f:
+                        regs = [reg_of(x) for x in n.decorator_list]
+                        regs = [r for r in regs if r is not None]
+                        if not regs:
+                            continue
+                        if len(n.decorator_list) != len(regs):
+                            ok = False
+                        for r in regs:
+                            if r == "annotation":
+                                a0 = (n.args.posonlyargs + n.args.args)[:1]
+                                r = a0[0].annotation if a0 and a0[0].annotation is not None else None
+                                if isinstance(r, ast.Constant) and isinstance(r.value, str):
+                                    try:
+                                        r = ast.parse(r.value, mode="eval").body
+                                    except SyntaxError:
+                                        r = None
+                            if r is None:
+                                ok = False
+                            else:
+                                impls.append((r, n, n))
+                    elif isinstance(n, ast.Expr) and isinstance(n.value, ast.Call):
+                        c = n.value
+                        r = reg_of(c.func) if isinstance(c.func, ast.Call) else None
+                        if r is not None and r != "annotation" and len(c.args) == 1 and isinstance(c.args[0], ast.Name) and c.args[0].id in by_name:
+                            impls.append((r, by_name[c.args[0].id], n))          # f.register(T)(g): g stays a function of its own
+                        elif isinstance(c.func, ast.Attribute) and c.func.attr == "register" and isinstance(c.func.value, ast.Name) and \
+                                c.func.value.id == f.name:
+                            if len(c.args) == 2 and isinstance(c.args[1], ast.Name) and c.args[1].id in by_name:
+                                impls.append((c.args[0], by_name[c.args[1].id], n))
+                            else:
+                                ok = False
+                if not ok or not impls:
+                    continue
+                fa = f.args
+                fparams = [x.arg for x in fa.posonlyargs + fa.args]
+                if not fparams or fa.vararg or fa.kwarg:
+                    continue
+                # order: a type whose class is a subclass of another registered type is tested first
+                def bases_text(t):
+                    r = self.resolve_expr(m.name, t) if isinstance(t, (ast.Name, ast.Attribute)) else None
+                    if r and r[0] == "class":
+                        c = r[1] if isinstance(r[1], str) else getattr(r[1], "qual", None)
+                        if c in self.classes:
+                            out = set()
+                            for k in self.mro(c):
+                                out.add(k)
+                                if k in self.classes:
+                                    out.update(ast.unparse(b) for b in self.classes[k].node.bases)
+                            return c, out
+                    return ast.unparse(t), {ast.unparse(t)}
+                keyed = [(bases_text(t), t, n, st) for t, n, st in impls]
+                if any(isinstance(t, (ast.Tuple, ast.BinOp, ast.Subscript)) for t, _, _ in impls):
+                    continue
+                texts = [k[0][0] for k in keyed]
+                if len(set(texts)) != len(texts):
+                    continue
+                def before(a, b):      # a must be tested before b: a's class is a subclass of b's
+                    return a[0][0] != b[0][0] and (b[0][0] in a[0][1] or ast.unparse(b[1]) in a[0][1] or (a[0][0], b[0][0]) == ("bool", "int"))
+                order = []
+                rest = list(keyed)
+                while rest:
+                    pick = next((x for x in rest if not any(before(y, x) for y in rest if y is not x)), None)
+                    if pick is None:
+                        break
+                    order.append(pick)
+                    rest.remove(pick)
+                if rest:
+                    continue
+                chain: List[ast.stmt] = []
+                good = True
+                branches = []
+                for (_, _), t, n, st in order:
+                    na = n.args
+                    nparams = [x.arg for x in na.posonlyargs + na.args]
+                    if len(nparams) != len(fparams) or na.vararg or na.kwarg or [x.arg for x in na.kwonlyargs] != [x.arg for x in fa.kwonlyargs]:
+                        good = False
+                        break
+                    ren = {a: b for a, b in zip(nparams, fparams) if a != b}
+                    clash = {x.id for x in ast.walk(n) if isinstance(x, ast.Name)} & set(ren.values())
+                    if clash - set(nparams):
+                        good = False
+                        break
+                    body = [copy_.deepcopy(x) for x in body_without_docstring(n)]
+
+                    class Rn(ast.NodeTransformer):
+                        def visit_Name(self, x):
+                            if x.id in ren:
+                                return ast.copy_location(ast.Name(id=ren[x.id], ctx=x.ctx), x)
+                            return x
+                    body = [Rn().visit(x) for x in body] or [ast.Pass()]
+                    test = ast.Call(func=ast.Name(id="isinstance", ctx=ast.Load()),
+                                    args=[ast.Name(id=fparams[0], ctx=ast.Load()), copy_.deepcopy(t)], keywords=[])
+                    branches.append((test, body, n))
+                if not good:
+                    continue
+                tail: List[ast.stmt] = body_without_docstring(f) or [ast.Pass()]
+                for test, body, n in reversed(branches):
+                    node = ast.If(test=test, body=body, orelse=tail)
+                    ast.copy_location(node, n)
+                    tail = [node]
+                doc = f.body[:1] if f.body and isinstance(f.body[0], ast.Expr) and isinstance(getattr(f.body[0], "value", None), ast.Constant) and \
+                    isinstance(f.body[0].value.value, str) else []
+                f.body = doc + tail
+                f.decorator_list = [x for x in f.decorator_list if not is_sd(x)]
+                drop = {id(st) for _, _, _, st in order}
+                m.tree.body = [n for n in m.tree.body if id(n) not in drop]
+                ast.fix_missing_locations(m.tree)
+                changed = True
+        return changed
 
     def _desugar_getters(self) -> None:
         """operator.attrgetter("a.b") is `lambda o: o.a.b`, operator.itemgetter(k) is `lambda o: o[k]` (one argument each): the
